@@ -340,3 +340,4 @@ def oracle(line, out, expect):
     if m and int(m.group(1)) > ALLOC_LIMIT:
         return "largest single allocation %s bytes exceeds %d for frames of at most 65535 bytes" % (m.group(1), ALLOC_LIMIT)
     return None
+from ties import of as _tie_of; TIE_LAYOUTS, TIE_PINS, TIE_ENUMS = _tie_of("C05")   # static-tie lemmas (coq/Gen/Tie) this property depends on
